@@ -52,10 +52,10 @@ type Case struct {
 	Dir    uint8 `json:"dir"`    // 0 LTR, 1 RTL, 2 TTB, 3 BTT
 	Orient uint8 `json:"orient"` // vertical only: 0 not set, 1 upright, 2 sideways
 
-	ScriptGuess bool   `json:"script_guess"` // script = first strong script of the run (else Common)
-	Script      uint32 `json:"script"`       // used when !ScriptGuess
-	Language    string `json:"language"`
-	Size        int32  `json:"size"` // fixed.Int26_6
+	ScriptGuess bool      `json:"script_guess"` // script = first strong script of the run (else Common)
+	Script      uint32    `json:"script"`       // used when !ScriptGuess
+	Language    string    `json:"language"`
+	Size        int32     `json:"size"` // fixed.Int26_6
 	Features    []Feature `json:"features"`
 
 	// harfbuzz level only
